@@ -179,7 +179,7 @@ def runChain (j : Json) : Except String Json := do
       | _, _ => Json.null
     out := out.push (obj [("r", Json.str (resName r)), ("new", Json.arr (now.drop n).toArray),
       ("changed", Json.arr changed.toArray), ("inst", inst)])
-    agrees := agrees && Spec.frameHolds σ σ' s
+    agrees := agrees && Spec.frameHolds σ σ' s && Spec.wfB σ'
     σ := σ'
     prev := now
   return obj [("start", Json.arr start.toArray), ("steps", Json.arr out), ("spec_agrees", Json.bool agrees)]
